@@ -4,7 +4,7 @@ import fcntl, hashlib, json, os, re, subprocess, sys, time, shutil
 
 ROOT = os.path.dirname(os.path.dirname(os.path.abspath(__file__)))
 REPO = os.environ.get("VERIF_REPO", "/repo")
-BUILD = os.path.join(ROOT, "build")
+BUILD = os.environ.get("VERIF_BUILD", os.path.join(ROOT, "build"))
 COQ = os.path.join(ROOT, "coq")
 NPROC = os.cpu_count() or 4
 
@@ -486,3 +486,40 @@ def replay(prop, path, variants=("asan",)):
             print("stderr:", err[-1500:])
         print("AGREE" if a[0] == b[0] else "DIFFER")
     return 0
+
+
+# ----------------------------------------------------------------------------- evaluating models inside Coq
+def coq_eval(prop, imports, exprs, shards=None, timeout=3600, tag="cases"):
+    """Evaluate Gallina expressions with vm_compute inside coqc (used for the big-integer
+    models over Bignums.BigZ).  imports: text placed at the top of each generated file.
+    exprs: list of Gallina terms, each of type string (Coq `string`) — the model prints its own
+    canonical result line.  Returns list of python strings (or 'MODEL-EXN ...')."""
+    import threading
+    n = len(exprs)
+    if n == 0:
+        return []
+    shards = shards or min(NPROC, max(1, n // 4))
+    gen = os.path.join(COQ, "Gen")
+    os.makedirs(gen, exist_ok=True)
+    res = [None] * n
+    def work(i):
+        idx = list(range(i, n, shards))
+        name = "%s_%s_%d_%d" % (tag, prop, os.getpid(), i)
+        path = os.path.join(gen, name + ".v")
+        with open(path, "w") as f:
+            f.write(imports + "\nSet Printing Width 1000000.\nSet Printing Depth 1000000.\n")
+            for j in idx:
+                f.write("Eval vm_compute in (%s).\n" % exprs[j])
+        rc, out = sh(["coqc", "-Q", ".", "GmVerif", "-w", "-all", os.path.join("Gen", name + ".v")], cwd=COQ, timeout=timeout)
+        vals = re.findall(r'^\s*= "((?:[^"]|"")*)"\s*$', out, re.M)
+        for k, j in enumerate(idx):
+            res[j] = vals[k].replace('""', '"') if k < len(vals) else "MODEL-EXN coqc: " + out[-300:].replace("\n", " ")
+        for ext in (".v", ".vo", ".vok", ".vos", ".glob"):
+            try: os.remove(os.path.join(gen, name + ext))
+            except OSError: pass
+        try: os.remove(os.path.join(gen, "." + name + ".aux"))
+        except OSError: pass
+    ths = [threading.Thread(target=work, args=(i,)) for i in range(shards)]
+    [t.start() for t in ths]
+    [t.join() for t in ths]
+    return res
